@@ -24,6 +24,7 @@ func C04_Jobs() []string {
 	for _, k := range []string{"int", "str", "bool", "slice", "ptr", "structfield"} {
 		out = append(out, "ws/"+k)
 	}
+	out = append(out, "default-items/parse", "default-items/validate", "struct-input")
 	for _, k := range []string{"int", "str", "bool", "float", "time", "slice", "ptr"} {
 		for _, m := range []string{"parse", "validate"} {
 			for d := 0; d < 4; d++ {
@@ -512,8 +513,71 @@ func c04Table(kind, mode string, deco int) {
 	}
 }
 
+func c04Extra(kind, mode string) {
+	switch kind {
+	case "default-items":
+		// a default is tested like any other value: also the items of a slice default
+		g := v.Int("g")
+		d0, d1 := v.Int("d0"), v.Int("d1")
+		s := z.Slice(z.Int().GT(g).Required()).Default([]int{d0, d1})
+		var d []int
+		var errs z.ZogIssueMap
+		if mode == "validate" {
+			errs = s.Validate(&d)
+		} else {
+			errs = s.Parse(nil, &d)
+		}
+		v.Cover("default-applied")
+		bad := func(n int) int {
+			if mode == "validate" && n == 0 {
+				return 1 // a zero item is absent in Validate and the item schema is Required
+			}
+			return v.B2I(!(n > g))
+		}
+		v.Assert(len(errs["[0]"]) == bad(d0) && len(errs["[1]"]) == bad(d1), "C04:default-value-not-tested")
+		v.Assert(len(d) == 2, "C04:default-not-stored")
+	case "struct-input":
+		// present-but-falsy values of a Go struct used as input are present in Parse
+		type In struct {
+			A int
+			B bool
+			F float64
+			S string
+			P *int
+		}
+		x := v.Int("x")
+		called := 0
+		var d struct {
+			A int
+			B bool
+			F float64
+			S string
+			P *int
+		}
+		d.A, d.B, d.F = 5, true, 5
+		rec := func(val any, c z.Ctx) bool { called++; return true }
+		// (the fields of an input struct are looked up by their Go names, so the schema keys are
+		// the field names)
+		errs := z.Struct(z.Schema{"A": z.Int().Required().Default(9).TestFunc(rec), "B": z.Bool().Required().TestFunc(rec), "F": z.Float64().Required().TestFunc(rec),
+			"S": z.String().Required()}).Parse(In{A: 0, B: false, F: 0, S: "", P: nil}, &d)
+		v.Cover("present")
+		v.Cover("required-issue")
+		v.Assert(len(errs["A"]) == 0 && len(errs["B"]) == 0 && len(errs["F"]) == 0, "C04:present-value-reported-absent")
+		v.Assert(d.A == 0 && !d.B && d.F == 0 && called == 3, "C04:present-value-not-stored")
+		v.Assert(len(errs["S"]) == 1 && errs["S"][0].Code == "required", "C04:required-absent-not-reported")
+		var d2 struct{ A int }
+		e2 := z.Struct(z.Schema{"A": z.Int().Required()}).Parse(&In{A: x}, &d2)
+		v.Assert(e2 == nil && d2.A == x, "C04:present-value-not-stored")
+	}
+}
+
 func C04_Run(job string) {
 	a, b, c, d := split3(job)
+	if a == "default-items" || a == "struct-input" {
+		c04Extra(a, b)
+		v.Cover("ws:blank")
+		return
+	}
 	if a == "ws" {
 		c04WS(b)
 		return
